@@ -9,7 +9,7 @@ CONSTANTS
   EraseOnLookup = FALSE
   CleanFailedWrite = TRUE
   ListRaw = FALSE
-INVARIANTS C01_ReadExact C01_NoEarlyLoss C04_FileImpliesLive C04_NoDeadFileAfterSweep C04_WipeBeforeUnlink
+INVARIANTS Reach_FailedWrite
 VIEW View
 CONSTRAINT Bound
 CHECK_DEADLOCK FALSE
